@@ -4,7 +4,7 @@ From Coq Require Import String.
 From Coq Require Import List Arith Bool ZArith QArith Qcanon.
 From NV.Lib Require Import RingMat Harness.
 From NV.C01 Require Import Model.
-From NV.C04 Require Import Model.
+From NV.C04 Require Import Model ModelSwap.
 Import ListNotations.
 Close Scope Q_scope.
 Close Scope Qc_scope.
@@ -86,3 +86,23 @@ Definition swap_cols_agrees (i j : nat) (M M' : qmat) : bool :=
   qm_eqb (swap_cols Qc q0 i j M) M'.
 Definition scanner_pt_agrees (Fw Am Tw : qmat) (v out : qvec) : bool :=
   qv_eqb (qhapply (scanner_tv Qc q0 Qcplus Qcmult Fw Am Tw) v) out.
+
+(* VolumeImg.xyz_ordered, axis-swap loop (ModelSwap.v) at Qc.
+   key of a (column, original axis) pair = np.argmax(np.abs(column)): first index of the largest |entry| *)
+Definition qabs (a : Qc) : Q := if Qle_bool 0 (this a) then this a else Qopp (this a).
+Fixpoint argmax_abs_from (best : Q) (bi i : nat) (l : list Qc) : nat :=
+  match l with
+  | [] => bi
+  | x :: t => if negb (Qle_bool (qabs x) best) then argmax_abs_from (qabs x) i (S i) t
+              else argmax_abs_from best bi (S i) t
+  end.
+Definition argmax_abs (c : list Qc) : nat :=
+  match c with [] => 0 | x :: t => argmax_abs_from (qabs x) 0 1 t end.
+Definition qkey (ca : list Qc * nat) : nat := argmax_abs (fst ca).
+(* cols: columns of A before the loop; trace: first_inversion of every observed _swapaxes(k+1,k) call;
+   cols': columns of A after the loop; axes': original data axis shown at each axis of the array after the loop *)
+Definition xyz_loop_agrees (cols : qmat) (trace : list nat) (cols' : qmat) (axes' : list nat) : bool :=
+  match swap_loop qkey (length cols * length cols) (init_state Qc cols) with
+  | Some (r, tr) => list_eqb Nat.eqb tr trace && qm_eqb (map fst r) cols' && list_eqb Nat.eqb (map snd r) axes'
+  | None => false
+  end.
